@@ -114,7 +114,7 @@ def work(shard):
         for moves, rew, loose in it:
             L, W = len(moves), len(moves[0])
             out["boards"] += 1
-            for triple in TRIPLES:
+            for triple in shard.get("triples", TRIPLES):
                 for manual in ((False, True) if shard.get("manual") else (False,)):
                     res, st, tr, rd = check_board(tmp, L, W, moves, rew, loose, triple, manual)
                     out["comparisons"] += 3
@@ -147,8 +147,19 @@ def plan(ctx):
             size = len(tile_alphabet(rewset)) ** tiles
             spaces.append({"tiles": tiles, "shape_length_x_width": list(shape), "reward_values": list(rewset), "boards": size,
                            "entry_points": ["write_robots"] + (["create_sg_from_board"] if manual else [])})
+            heavy = (not ctx.thorough) and tiles >= 3
             for lo, hi in par.ranges(size, ctx.jobs * 3 if size > 2000 else 1):
-                shards.append({"kind": "enum", "shape": shape, "rewset": rewset, "lo": lo, "hi": hi, "manual": manual})
+                sh = {"kind": "enum", "shape": shape, "rewset": rewset, "lo": lo, "hi": hi, "manual": manual}
+                if heavy:
+                    sh["triples"] = TRIPLES[:2]
+                shards.append(sh)
+            if heavy:
+                # quick tier: the two extra probability triples on the same shapes with a single reward value
+                size0 = len(tile_alphabet((0,))) ** tiles
+                spaces.append({"tiles": tiles, "shape_length_x_width": list(shape), "reward_values": [0], "boards": size0,
+                               "probability_triples": [list(t) for t in TRIPLES[2:]]})
+                for lo, hi in par.ranges(size0, ctx.jobs):
+                    shards.append({"kind": "enum", "shape": shape, "rewset": (0,), "lo": lo, "hi": hi, "manual": False, "triples": TRIPLES[2:]})
     for shape, vals in (((2, 2), (0, 1, 2, 5)), ((2, 3), (0, 3, 5)), ((3, 2), (0, 3, 5))):
         shards.append({"kind": "rewards", "shape": shape, "values": vals, "manual": True, "lo": 0})
         spaces.append({"reward_layout_boards": len(vals) ** (shape[0] * shape[1]), "shape_length_x_width": list(shape), "reward_values": list(vals),
